@@ -16,7 +16,7 @@ Import ListNotations.
 From Femto Require Import Base.Num Ctl.Tok.
 
 (* ---------------- monad ---------------- *)
-Inductive exn := EValue | EFileNotFound | EUser | EType | EIndex.
+Inductive exn := EValue | EFileNotFound | EUser | EType | EIndex | EKey.
 Inductive R (A : Type) := Ret (a : A) | Exc (e : exn).
 Arguments Ret {A} a. Arguments Exc {A} e.
 
